@@ -894,7 +894,7 @@ def result_origins(b, l, depth=0):
     if d[2] == "call":
         t = d[3]
         nm = t["f"].get("fn") or ""
-        if nm.endswith("Try::branch") or re.search(r"result::Result::<.*>::or$", nm):
+        if nm.endswith("Try::branch") or re.search(r"result::Result::<.*>::(or|map_err)$", nm):
             out = set()
             for a in t["args"]:
                 p = op_place(a)
